@@ -581,4 +581,90 @@ theorem legR_2reg_imm_formOk (ctx : Spec.X86.Ctx) (rule : Rule) (opcode opReg rb
   exact leg_2reg_imm_formOk ctx rule p _ bytes _ ka kb fa fb _ _ (by simpa [hm64] using hmode) hka hkb R f3 imm hf3 hib hsg (by simp [hi, emitImmediate])
     (Or.inl ⟨hra, hrb, h0, h1⟩) (hal _ _) (by rw [hm64]; exact hp) P
 
+/-! ### class X86Op: no explicit operands, no ModRM -/
+
+theorem emitX86Op_bytes (opcode : BitVec 32) (hopc : opcode &&& 0xF7801C00#32 = 0#32) :
+    emitX86Op opcode 0#32 0 0 =
+      .ok (ppBytes ((opcode >>> 21) &&& 3#32).toNat ++ (rexOf opcode 0#32 0#32).toList ++ legacyEscape ((opcode >>> 8) &&& 3#32).toNat ++
+           [opcode.truncate 8]) := by
+  have hrex : ¬ (extractRex opcode 0#32) > 0x80#32 := by simp only [extractRex]; bv_decide
+  have e : extractRex opcode 0#32 ||| ((0#32 &&& 8#32) >>> 1) ||| ((0#32 &&& 8#32) >>> 3) = extractRex opcode 0#32 := by bv_decide
+  simp only [emitX86Op, emitRex, hrex, ↓reduceIte, bind, Except.bind, pure, Except.pure,
+    emitPP_eq opcode (by bv_decide), emitMM_eq opcode (by bv_decide), rexOf, e, emitImmediate]
+  split <;> simp
+
+/-- class X86Op: the bytes `EmitX86Op` produces satisfy the monitor for a form without explicit operands -/
+theorem x86Op_formOk (ctx : Spec.X86.Ctx) (rule : Rule) (opcode : BitVec 32)
+    (hm64 : ctx.mode64 = true) (hmode : (rule.modes &&& 2 != 0) = true) (hopc : opcode &&& 0xF7801C00#32 = 0#32)
+    (hs : rule.space = 0) (hpp8 : rule.pp &&& 8 = 0)
+    (h66 : (rule.pp &&& 1 != 0 || rule.osz == 16) = (((opcode >>> 21) &&& 3#32).toNat == 1))
+    (hF3 : (rule.pp &&& 2 != 0) = (((opcode >>> 21) &&& 3#32).toNat == 2)) (hF2 : (rule.pp &&& 4 != 0) = (((opcode >>> 21) &&& 3#32).toNat == 3))
+    (hri : rule.ri = false) (ha67 : rule.a67 = false) (hmk : rule.modKind = 0)
+    (himm : rule.immBytes = 0) (hrel : rule.relBytes = 0) (hmoff : rule.moff = false)
+    (himpl : rule.ops.all (·.implicit) = true) (A : LegAgree rule opcode) :
+    ∃ bytes, emitX86Op opcode 0#32 0 0 = .ok bytes ∧ formOk ctx rule [] {} bytes = true := by
+  obtain ⟨hop, hmap, hw, hsafe⟩ := A
+  refine ⟨_, emitX86Op_bytes opcode hopc, ?_⟩
+  have hpplt : ((opcode >>> 21) &&& 3#32).toNat < 4 := by
+    have : (opcode >>> 21) &&& 3#32 < 4#32 := by bv_decide
+    simpa [BitVec.lt_def] using this
+  have hmaplt : rule.map < 4 := by
+    rw [hmap]
+    have : (opcode >>> 8) &&& 3#32 < 4#32 := by bv_decide
+    simpa [BitVec.lt_def] using this
+  have hrexv : ∀ b, rexOf opcode 0#32 0#32 = some b → b >>> 4 = 4#8 ∧ (b.getLsbD 3 = opcode.getLsbD 27) := by
+    intro b hb'
+    unfold rexOf at hb'
+    dsimp only at hb'
+    split at hb'
+    · injection hb' with hb'; subst hb'; simp only [extractRex] at *; refine ⟨?_, ?_⟩ <;> bv_decide
+    · contradiction
+  have hnone : rexOf opcode 0#32 0#32 = none → opcode.getLsbD 27 = false := by
+    intro hn
+    unfold rexOf at hn
+    dsimp only at hn
+    split at hn
+    · contradiction
+    · rename_i hz; simp only [extractRex] at hz; bv_decide
+  have hrexH : ∀ b, rexOf opcode 0#32 0#32 = some b → b.toNat / 16 = 4 ∧ isLegacyPrefix b false = false := by
+    intro b hb'
+    obtain ⟨h4, -⟩ := hrexv b hb'
+    refine ⟨toNat_div16_eq4 b h4, ?_⟩
+    rw [Bool.eq_false_iff]
+    intro hh
+    simp only [isLegacyPrefix, Bool.or_eq_true, beq_iff_eq, Bool.false_and, Bool.or_false] at hh
+    bv_decide
+  have hoH : rule.map = 0 → isLegacyPrefix (opcode.truncate 8) false = false ∧
+      (rexOf opcode 0#32 0#32 = none → (opcode.truncate 8 : BitVec 8).toNat / 16 ≠ 4) := by
+    intro hm0
+    have hm0' : (opcode >>> 8) &&& 3#32 = 0#32 := by
+      apply BitVec.eq_of_toNat_eq; rw [← hmap, hm0]; rfl
+    obtain ⟨s1, s2⟩ := hsafe hm0'
+    refine ⟨s1, fun _ h => s2 ?_⟩
+    apply BitVec.eq_of_toNat_eq
+    simpa [BitVec.toNat_ushiftRight, Nat.shiftRight_eq_div_pow] using h
+  have hparse := parse_legacy_op rule _ (rexOf opcode 0#32 0#32) (opcode.truncate 8) hpplt hs hpp8 hmaplt hmk hrexH hoH himm hrel hmoff
+  rw [hmap] at hparse
+  refine leg_nullary_formOk ctx rule _ _ _ (by simpa [hm64] using hmode) hs hpp8 h66 hF3 hF2 hpplt hri ha67 himpl (by rw [hm64]; exact hparse)
+    rfl rfl rfl ?_ ?_
+  · show (opcode.truncate 8 : BitVec 8).toNat = rule.opcode
+    rw [hop]; exact toNat_eq_of_zext _ _ (by omega) (by bv_decide)
+  · rcases hw with h | h
+    · exact Or.inl h
+    · right
+      have hc : (opcode >>> 27) &&& 1#32 = 0#32 ∨ (opcode >>> 27) &&& 1#32 = 1#32 := by bv_decide
+      simp only [rexBit]
+      cases hr : rexOf opcode 0#32 0#32 with
+      | none =>
+        have w0 := hnone hr
+        rcases hc with hc | hc
+        · rw [h, hc]; simp
+        · exfalso; bv_decide
+      | some b =>
+        obtain ⟨-, wb⟩ := hrexv b hr
+        simp only [bit]
+        rcases hc with hc | hc
+        · rw [h, hc, wb]; simp; bv_decide
+        · rw [h, hc, wb]; simp; bv_decide
+
 end AsmjitVerif.Props.C01
